@@ -165,6 +165,11 @@ def _case(pat, eset, shift, dupe):
                 pv2 = loc2 if td2.startswith('/h') else loc2[len('/v/'):]
                 nodes += K.trashed(td2, 'dup', K.quote(pv2), '2020-01-02T00:00:00', 'file', 2500)
                 entries.append((td2, 'dup', loc2))
+        # an entry whose .trashinfo cannot be decoded (not UTF-8), listed right after the last readable one: it matches no
+        # pattern (its Path is unknown) - it must survive whatever its neighbour's Path was
+        td_last = entries[-1][0]
+        nodes += [W.f(td_last + '/info/zzbad.trashinfo', b'[Trash Info]\nPath=w/\xff\xfe\nDeletionDate=2020-01-01T00:00:00\n', 0o600, 2600),
+                  W.f(td_last + '/files/zzbad', 'BAD', 0o644, 2601)]
         world = W.W(mounts=K.MOUNTS + ['/w', '/u'], cwd='/v', nodes=nodes)
         p = PATTERNS[pat]
         steps = [{'snap': '/'}, C('rm', [p], scen.env(), cwd='/v'), {'snap': '/'}]
